@@ -18,6 +18,9 @@ def corr(rep, name, tag, terms, expect, metas):
     for ge in supcommon.GEN_ERRORS[:2]:
         rep.violation(ge["what"], dict(metric=ge["metric"], X=ge["X"], array_kind=ge["array_kind"]), key="typed_rows:" + ge["metric"])
     del supcommon.GEN_ERRORS[:]
+    for pk in supcommon.POKED[:2]:
+        rep.violation("%s: %s" % (pk["model"], pk["what"]), pk["instance"], key="rejected_assignment")
+    del supcommon.POKED[:]
     try:
         got = run_cases(tag, terms, requires=("Model.Run", "Model.RunSup"))
     except RuntimeError as ex:
